@@ -24,7 +24,8 @@ class World(CollectionWorld):
 class Scenario(object):
 
     def __init__(self, max_groups=2, n_states=2, stack=True, roundtrip=True, merge=True, edits=True,
-                 names=('d0', 'd1', 'd2')):
+                 names=('d0', 'd1', 'd2'), relabel=True):
+        self.relabel = relabel
         self.max_groups = max_groups
         self.n_states = n_states
         self.stack = stack
@@ -62,9 +63,11 @@ class Scenario(object):
                 ops.append(['new_group', k])
         for j in range(ng):
             ops.append(['remove_group', j])
+            if self.relabel:
+                ops.append(['set_label', j, LABELS[0]])     # same label for every group: labels are not unique
             if self.edits:
                 ops.append(['set_state', j, (j + 1) % self.n_states])
-                ops.append(['set_label', j, LABELS[j % 2]])
+                ops.append(['set_label', j, LABELS[1]])
                 ops.append(['set_style', j, COLORS[j % 2]])
         if self.stack:
             if ng < self.max_groups:
